@@ -12,7 +12,7 @@ import common
 from common import REPO, WORK, KANI_DIR
 
 
-def run_native(script_lines, logdir, tag):
+def run_native(script_lines, logdir, tag, test="isomer_erbium_replay_pool"):
     os.makedirs(logdir, exist_ok=True)
     spath = os.path.join(logdir, f"{tag}.replay-script.txt")
     open(spath, "w").write("\n".join(script_lines) + "\n")
@@ -25,7 +25,7 @@ def run_native(script_lines, logdir, tag):
     env["VERIF_REPLAY_FILE"] = spath
     env.pop("RUSTUP_TOOLCHAIN", None)
     cmd = ["cargo", "test", "--offline", "-p", "erbium-core", "--features", "isomer_erbium_verif", "--lib",
-           "isomer_erbium_replay_pool", "--", "--nocapture", "--test-threads", "1"]
+           test, "--", "--nocapture", "--test-threads", "1"]
     p = subprocess.run(cmd, cwd=REPO, env=env, text=True, capture_output=True, timeout=3600)
     out = p.stdout + p.stderr
     open(os.path.join(logdir, f"{tag}.replay.log"), "w").write(out)
@@ -121,11 +121,58 @@ def concrete_check(pid, cex, lines, claim_name):
     return violated, f"real outcome {sig} {res}"
 
 
+def replay_cache(pid, name, desc, cex, logdir, rpath):
+    """cache counterexample: ttls per section (shape from the obligation), elapsed time, key equality"""
+    shape = cex.get("shape", [len(cex["ttls"]), 0, 0])
+    ttls = list(cex["ttls"])
+    parts = []
+    for n in shape:
+        parts.append(",".join(str(t) for t in ttls[:n]))
+        ttls = ttls[n:]
+    bs, bn = cex["birth"]
+    ns, nn = cex["now"]
+    tot = (ns * 10**9 + nn) - (bs * 10**9 + bn)
+    es, en = divmod(max(tot, 0), 10**9)
+    same = cex.get("keys_equal") == "True"
+    script = ["ttls " + ";".join(parts), f"elapsed {es} {en}", f"same {1 if same else 0}"]
+    json.dump(dict(property=pid, obligation=name, claim=desc, counterexample=cex, script=script, kind="cache",
+                   how="/verif/check %s --replay %s" % (pid, rpath)), open(rpath, "w"), indent=1)
+    lines, errtxt = run_native(script, logdir, name, test="isomer_erbium_replay_cache")
+    if lines is None:
+        return None, rpath, "native replay did not run: " + errtxt.replace("\n", " ")[-200:]
+    res = [l for l in lines if l.startswith("result")][0].split()
+    life = [l for l in lines if l.startswith("lifetime")][0].split()
+    allt = cex["ttls"]
+    minttl = min(allt) if allt else 0
+    within = (es < minttl) or (es == minttl and en == 0)
+    bad = []
+    if (int(life[1]), int(life[2])) != (minttl, 0):
+        bad.append("lifetime != min TTL")
+    if res[1] == "panic":
+        bad.append("panic")
+    elif res[1] == "hit":
+        if not same:
+            bad.append("hit for a different key")
+        if not within:
+            bad.append("served past its TTL")
+        got = [int(x) for part in res[2].split(";") for x in part.split(",") if x]
+        if got != [t - es for t in allt]:
+            bad.append(f"served TTLs {got} != original - {es}")
+    elif res[1] == "miss" and same and within:
+        bad.append("unexpired identical entry not served")
+    note = f"real cache code: lifetime {life[1:]}, result {res[1:]}"
+    if bad:
+        return True, rpath, "reproduced: " + "; ".join(bad) + " (" + note + ")"
+    return False, rpath, "real code satisfies the claims (" + note + ")"
+
+
 def replay_cex(pid, name, desc, cex, logdir):
     """-> (reproduced bool|None, replay path, note)"""
     rdir = os.path.join(common.REPLAY_DIR, pid)
     os.makedirs(rdir, exist_ok=True)
     rpath = os.path.join(rdir, name + ".json")
+    if "ttls" in cex:
+        return replay_cache(pid, name, desc, cex, logdir, rpath)
     op = "metrics" if pid == "C20" else "allocate"
     json.dump(dict(property=pid, obligation=name, claim=desc, counterexample=cex, script=script_of(cex, op),
                    how="/verif/check %s --replay %s" % (pid, rpath)), open(rpath, "w"), indent=1)
